@@ -307,6 +307,13 @@ MCF_ = 'lib_guesser/omen/markov_cracker.py'
 add('C10', 'lookup-without-copy', OPTF, "return True, self.custom_copy( self.tmto_lookup[length][ip_ngram][target_level] )", "return True, self.tmto_lookup[length][ip_ngram][target_level]", 'fire', 'C10.R1')
 add('C10', 'update-without-copy', OPTF, "self.tmto_lookup[length][ip_ngram][target_level] = self.custom_copy(parse_tree)", "self.tmto_lookup[length][ip_ngram][target_level] = parse_tree", 'fire', 'C10.R1')
 add('C10', 'shallow-copy', OPTF, "            return [x[:] for x in input_list]", "            return list(input_list)", 'fire', 'C10.R1')
+LOOKUP_OLD = "        try:\n            return True, self.custom_copy( self.tmto_lookup[length][ip_ngram][target_level] )\n        except KeyError:\n            return False, None"
+add('C10', 'lookup-get-miss-as-hit', OPTF, LOOKUP_OLD, "        levels = self.tmto_lookup[length].get(ip_ngram)\n        if levels is None:\n            return False, None\n\n        return True, self.custom_copy(levels.get(target_level))", 'fire', 'C10.R12')
+add('C10', 'lookup-get-with-membership *', OPTF, LOOKUP_OLD, "        levels = self.tmto_lookup[length].get(ip_ngram)\n        if levels is None or target_level not in levels:\n            return False, None\n        return True, self.custom_copy(levels[target_level])", 'silent')
+add('C04', 'lookup-get-miss-as-hit', OPTF, LOOKUP_OLD, "        levels = self.tmto_lookup[length].get(ip_ngram)\n        if levels is None:\n            return False, None\n\n        return True, self.custom_copy(levels.get(target_level))", 'fire', 'C04.R16')
+OPT_INIT = "        self.tmto_lookup = []\n        for i in range(self.max_length + 1):"
+add('C10', 'class-level-cache (shared by every Optimizer)', OPTF, "class Optimizer:\n", "class Optimizer:\n    tmto_lookup = []\n", 'silent')
+add('C10', 'class-level-cache-not-rebound', OPTF, [("class Optimizer:\n", "class Optimizer:\n    tmto_lookup = []\n"), (OPT_INIT, "        for i in range(len(self.tmto_lookup), self.max_length + 1):")], None, 'fire', 'C10.R11')
 add('C10', 'deep-copy', OPTF, "            return [x[:] for x in input_list]", "            return [list(x) for x in input_list]", 'silent')
 add('C10', 'key-uses-current-level', GSF, "                        self.optimizer.update(ip, length, optimize_level_target, result)", "                        self.optimizer.update(ip, length, cur_level, result)", 'fire', 'C10.R2')
 add('C10', 'one-construction-loses-ip-level', MCF_, [("                    target_level = self.target_level - self.cur_len[0] - self.cur_ip[0],\n                    optimizer = self.optimizer,\n                    )\n                return True\n\n            # No valid items at this level, check if we can go up a level\n            level += 1\n            index = 0\n            if level > self.max_level:\n                return False\n            elif level > working_target:", "                    target_level = self.target_level - self.cur_len[0],\n                    optimizer = self.optimizer,\n                    )\n                return True\n\n            # No valid items at this level, check if we can go up a level\n            level += 1\n            index = 0\n            if level > self.max_level:\n                return False\n            elif level > working_target:")], None, 'fire', 'C10.R3')
@@ -427,3 +434,15 @@ add('*', 'omen-loader-error-text', OIOF, 'print("Hmm that shouldn\'t happen. Hit
 add('*', 'status-report-extra-field', 'lib_guesser/status_report.py', '        print("Probability Coverage: " + str(self.probability_coverage),file=sys.stderr)', '        print("Probability Coverage: " + str(self.probability_coverage),file=sys.stderr)\n        print("Mode: priority queue",file=sys.stderr)', 'silent')
 add('*', 'honeyword-banner-text', 'lib_guesser/honeyword_session.py', 'print ("Starting to generate honeyword guesses",file=sys.stderr)', 'print ("Starting to generate honeywords",file=sys.stderr)', 'silent')
 add('*', 'digit-detector-local-renamed', DIG, [("    working_string = section[0]\n", "    text = section[0]\n"), ("    for pos, value in enumerate(working_string):", "    for pos, value in enumerate(text):"), ("        if not value.isdigit() or pos == len(working_string) - 1:", "        if not value.isdigit() or pos == len(text) - 1:")], None, 'silent')
+
+# ---- shared-object rules (round 6) -----------------------------------------------------------------------------
+EW_OLD = "    grammar['E'] = []\n    if not _load_from_file(grammar['E'], full_path, encoding):"
+add('C01', 'E-and-W-one-list', GIO, EW_OLD, "    grammar['E'] = grammar['W'] = []\n    if not _load_from_file(grammar['E'], full_path, encoding):", 'fire', 'C01.R11')
+add('C07', 'E-and-W-one-list', GIO, EW_OLD, "    grammar['E'] = grammar['W'] = []\n    if not _load_from_file(grammar['E'], full_path, encoding):", 'fire', 'C07.R12')
+add('C03', 'E-and-W-one-list', GIO, EW_OLD, "    grammar['E'] = grammar['W'] = []\n    if not _load_from_file(grammar['E'], full_path, encoding):", 'fire', 'C03.R13')
+add('C01', 'two-locals-one-list *', GIO, EW_OLD, "    unused_a = unused_b = []\n    grammar['E'] = []\n    if not _load_from_file(grammar['E'], full_path, encoding):", 'silent')
+PQ_INIT = "        # The actual priority queue\n        self.p_queue = []\n"
+add('C02', 'class-level-heap', PQF, [("class PcfgQueue:\n", "class PcfgQueue:\n    p_queue = []\n"), (PQ_INIT, "")], None, 'fire', 'C02.R13')
+add('C02', 'class-level-default-rebound-in-init *', PQF, "class PcfgQueue:\n", "class PcfgQueue:\n    p_queue = []\n", 'silent')
+add('C02', 'class-level-constant-table *', PQF, "class PcfgQueue:\n", "class PcfgQueue:\n    SAVED_KEYS = ['max_probability', 'min_probability']\n", 'silent')
+add('C08', 'class-level-heap', PQF, [("class PcfgQueue:\n", "class PcfgQueue:\n    p_queue = []\n"), (PQ_INIT, "")], None, 'fire', 'C08.R17')
